@@ -41,7 +41,8 @@ RULE = ("bounded-rate event models (shared generator), integer initial states ha
         "on a grid point; plus SESSIONS on one instance (3-5 calls: gridded and raw, exact and tau-leap, 1-3 paths, pre_tau / epsilon "
         "left over, initial values re-assigned in another form or with other values, parameters changed and restored, a deep copy of the configured instance taking over, sibling instance in between, first call "
         "repeated, last call repeated on a fresh instance, every returned array kept and compared again at the end, the caller's "
-        "x0 and grid objects unchanged); a case is non-trivial when some interval holds >= 2 events")
+        "x0 and grid objects unchanged - side effects the pure model excludes but the property does not state are tags and broken "
+        "correspondence, never violations); a case is non-trivial when some interval holds >= 2 events")
 ASSUMPTIONS = ["no event time coincides with an interior grid point (hypothesis of rows_differ_by_vmat_counts; probability zero for "
                "exponential waiting times; the crafted case reports what the code does there as an observation)",
                "the state-change matrix does not depend on the state (numeric magnitudes)",
